@@ -1,7 +1,7 @@
 /-
 The transpose is the exact adjoint, closed, in the list denotation (FuraxProofs/Sem/ListSem.lean): property C03
 without any semantic hypothesis but the adjointness of the kernels of the uninterpreted leaves (dense einsum blocks,
-observation matrices, opaque operators, Toeplitz operators with batched bands).
+observation matrices, opaque operators; Toeplitz operators only in the degenerate case of a rank-0 band array).
 
 `dot x y := (zipWith (· * ·) x y).sum` is the Euclidean pairing of flat real vectors.
 
@@ -14,10 +14,10 @@ observation matrices, opaque operators, Toeplitz operators with batched bands).
     (sample-wise maps; `rotT` is the adjoint of `rot`, `hwp` is self-adjoint, `polTMap` is the adjoint of `polMap`).
 3.  `EnvAdjOn E o` / `EnvSymOn E o` (per expression) and `EnvAdj E` (global): assumption A2 / A-kernel on the
     leaves interpreted by the environment (`isEnvLeaf`: the classes `.dense`, `.obsMatrix`, `.opaque`, and the
-    `.toeplitz` leaves with a BATCHED band);  `leaf_adjoint`: a THEOREM for every interpreted class under
+    degenerate `.toeplitz` leaves with a rank-0 band array);  `leaf_adjoint`: a THEOREM for every interpreted class under
     `listLeafOK` (identity, homothety, diagonal, index, pack, moveAxis, ravel, reshape, qurot, hwp, polarizer, and
-    Toeplitz with an un-batched band: `toepLeaf_adjoint`, `toeplitz_leaf_adjoint`, `toeplitz_leaf_sym` — the band
-    matrix is symmetric); `.broadcastDiagonal` is EXCLUDED (`adjLeafOK`: its `leafDenT` is a placeholder).
+    Toeplitz with a band array `bs ++ [K]`, batched or not: `toepLeaf_adjoint`, `toeplitz_leaf_adjoint`,
+    `toeplitz_leaf_sym` — the band matrix of every batch row is symmetric); `.broadcastDiagonal` is EXCLUDED (`adjLeafOK`: its `leafDenT` is a placeholder).
 4.  `chooseInv_adjoint`: the adjoint of the lazy inverse is the lazy inverse of the adjoint — an inverse of `A`
     on `ℝⁿ` exists iff one of its adjoint `B` exists, and then they are adjoint (`inv_adjoint_exists`, through
     matrices and `mul_eq_one_comm`); otherwise both lazy inverses are the zero map.  NO invertibility hypothesis.
@@ -508,8 +508,9 @@ theorem leaf_size_blocks (li : LeafS) : li.size = li.size / li.shape.getLastD 1 
     rw [Nat.div_mul_cancel ⟨prodNat li.shape.dropLast, by rw [this, Nat.mul_comm]⟩]
 
 /-- **the Toeplitz kernel of a leaf is self-adjoint**: `⟨T c, d⟩ = ⟨c, T d⟩` for the Euclidean pairing of the flat
-leaves — row by row this is the symmetry of the band matrix (`toep_symm`); for every number of bands (also
-`K > l`), every band array, every leaf -/
+leaves — row by row this is the symmetry of the band matrix of that row (`toep_symm`; each batch row `b` has its own
+band row `toepBandAt K vals li.shape b`, whatever the broadcasting of the batch axes); for every number of bands
+(also `K > l`), every band array (batched or not), every leaf -/
 theorem toepLeaf_adjoint (K : Nat) (vals : Tensor Rat) (li lo lo' : LeafS) (c d : V) (hc : c.length = li.size)
     (hd : d.length = li.size) :
     dot (toepLeaf K vals li lo c) d = dot c (toepLeaf K vals li lo' d) := by
@@ -530,7 +531,7 @@ theorem toepLeaf_adjoint (K : Nat) (vals : Tensor Rat) (li lo lo' : LeafS) (c d 
       _ = (b + 1) * l := (Nat.succ_mul b l).symm
       _ ≤ B * l := Nat.mul_le_mul_right l hb'
   have e1 : ∑ i ∈ Finset.range l, (toepLeaf K vals li lo c).getD (b * l + i) 0 * d.getD (b * l + i) 0 =
-      ∑ i ∈ Finset.range l, Toeplitz.toep (K - 1) l (toepBand vals) (rowOf l c b) i * rowOf l d b i := by
+      ∑ i ∈ Finset.range l, Toeplitz.toep (K - 1) l (toepBandAt K vals li.shape b) (rowOf l c b) i * rowOf l d b i := by
     apply Finset.sum_congr rfl
     intro i hi
     have hi' : i < l := Finset.mem_range.mp hi
@@ -538,7 +539,7 @@ theorem toepLeaf_adjoint (K : Nat) (vals : Tensor Rat) (li lo lo' : LeafS) (c d 
     rw [hl] at this
     rw [this]; rfl
   have e2 : ∑ i ∈ Finset.range l, c.getD (b * l + i) 0 * (toepLeaf K vals li lo' d).getD (b * l + i) 0 =
-      ∑ i ∈ Finset.range l, rowOf l c b i * Toeplitz.toep (K - 1) l (toepBand vals) (rowOf l d b) i := by
+      ∑ i ∈ Finset.range l, rowOf l c b i * Toeplitz.toep (K - 1) l (toepBandAt K vals li.shape b) (rowOf l d b) i := by
     apply Finset.sum_congr rfl
     intro i hi
     have hi' : i < l := Finset.mem_range.mp hi
@@ -555,8 +556,9 @@ def isEnvCls : LeafCls → Bool
   | _ => false
 
 /-- **the leaves interpreted by the environment**: dense einsum blocks, observation matrices, opaque operators, and
-the Toeplitz leaves whose band array is BATCHED (`toepK p.vals = none`); a Toeplitz leaf with an un-batched band is
-interpreted by the kernel `toepLeaf` -/
+the degenerate Toeplitz leaves whose band array has rank 0 (`toepK p.vals = none`; Python refuses them); a Toeplitz
+leaf whose band array has a last axis (un-batched `[K]` or batched `bs ++ [K]`) is interpreted by the kernel
+`toepLeaf` -/
 def isEnvLeaf : LeafCls → Params → Bool
   | .dense, _ | .obsMatrix, _ | .opaque, _ => true
   | .toeplitz, p => (toepK p.vals).isNone
@@ -571,12 +573,14 @@ def LeafAdjAt (E : Env) (u : Nat) (c : LeafCls) (p : Params) : Prop :=
     dot (leafDen E u c p x) y = dot x (leafDenT E u c p y)
 
 /-- a Toeplitz leaf (`@symmetric`: its `transpose` is `lambda self: self`) is interpreted by a self-adjoint map:
-`leafDenT` and `leafDen` agree on the vectors of the size the leaf declares.  A THEOREM for an un-batched band
-(`toeplitz_leaf_sym`); for a batched band it says that `E.fT u` and `E.f u` agree there -/
+`leafDenT` and `leafDen` agree on the vectors of the size the leaf declares.  A THEOREM for every band array with a
+last axis, batched or not (`toeplitz_leaf_sym`); for the degenerate rank-0 band it says that `E.fT u` and `E.f u`
+agree there -/
 def LeafSymAt (E : Env) (u : Nat) (p : Params) : Prop :=
   ∀ y : V, y.length = p.inS.size → leafDen E u .toeplitz p y = leafDenT E u .toeplitz p y
 
-/-- **a Toeplitz leaf with an un-batched band is symmetric**: `op.T = op` denotes the same map (no hypothesis) -/
+/-- **a Toeplitz leaf (band array `bs ++ [K]`, batched or not) is symmetric**: `op.T = op` denotes the same map (no
+hypothesis) -/
 theorem toeplitz_leaf_sym (E : Env) (u : Nat) (p : Params) (h : toepK p.vals ≠ none) : LeafSymAt E u p := by
   intro y _
   obtain ⟨K, hK⟩ := Option.ne_none_iff_exists'.mp h
@@ -624,20 +628,21 @@ theorem allLeavesList_mono (P Q : Nat → LeafCls → Params → Prop) (h : ∀ 
 end
 
 /-- **assumption A2 / A-kernel, for the expression `o`**: for every leaf of `o` interpreted by the environment
-(`isEnvLeaf`: dense einsum block, observation matrix, opaque operator, Toeplitz with a BATCHED band) with identity
-`u`, `E.fT u` is the adjoint of `E.f u` on the vectors of the sizes the leaf declares.  (Toeplitz leaves with an
-un-batched band need no assumption: `toeplitz_leaf_adjoint`; the einsum kernel has its own adjointness theorem,
-C14.) -/
+(`isEnvLeaf`: dense einsum block, observation matrix, opaque operator, Toeplitz with a rank-0 band array) with
+identity `u`, `E.fT u` is the adjoint of `E.f u` on the vectors of the sizes the leaf declares.  (Toeplitz leaves with
+a band array `bs ++ [K]`, batched or not, need no assumption: `toeplitz_leaf_adjoint`; the einsum kernel has its own
+adjointness theorem, C14.) -/
 def EnvAdjOn (E : Env) (o : Op) : Prop := AllLeaves (fun u c p => isEnvLeaf c p = true → LeafAdjAt E u c p) o
 
-/-- **the Toeplitz leaves of `o` with a BATCHED band are interpreted by self-adjoint maps** (`transpose` returns
-`self` for them); nothing is asked of the Toeplitz leaves with an un-batched band (`toeplitz_leaf_sym`) -/
+/-- **the (degenerate) Toeplitz leaves of `o` with a rank-0 band array are interpreted by self-adjoint maps**
+(`transpose` returns `self` for them); nothing is asked of the Toeplitz leaves whose band array has a last axis,
+batched or not (`toeplitz_leaf_sym`) -/
 def EnvSymOn (E : Env) (o : Op) : Prop :=
   AllLeaves (fun u c p => c = .toeplitz → toepK p.vals = none → LeafSymAt E u p) o
 
 /-- the same for ALL identities, classes and parameters at once — a sufficient condition that does not mention
 the expression.  NOTE: the environment is keyed by the Python identity only, so `sym` asks EVERY `E.f u` to be
-self-adjoint; when an expression mixes batched Toeplitz leaves with non-symmetric dense/opaque leaves use the
+self-adjoint; when an expression mixes rank-0-band Toeplitz leaves with non-symmetric dense/opaque leaves use the
 per-expression hypotheses `EnvAdjOn` / `EnvSymOn` (the `_on` theorems below), which only constrain the leaves
 that occur. -/
 structure EnvAdj (E : Env) : Prop where
@@ -650,13 +655,14 @@ theorem EnvAdj.adjOn {E : Env} (h : EnvAdj E) (o : Op) : EnvAdjOn E o :=
 theorem EnvAdj.symOn {E : Env} (h : EnvAdj E) (o : Op) : EnvSymOn E o :=
   allLeaves_of_forall _ (fun u _ p _ hK => h.sym u p hK) o
 
-/-- an expression without Toeplitz leaves with a batched band and without dense / observation-matrix / opaque leaves
-needs no assumption on the environment -/
+/-- an expression without Toeplitz leaves with a rank-0 band array and without dense / observation-matrix / opaque
+leaves needs no assumption on the environment -/
 theorem envAdjOn_of_noEnvLeaf (E : Env) (o : Op) (h : AllLeaves (fun _ c p => isEnvLeaf c p = false) o) :
     EnvAdjOn E o :=
   allLeaves_mono _ _ (fun _ _ _ hp ht => absurd ht (by rw [hp]; simp)) o h
 
-/-- the Toeplitz leaves with an un-batched band need no assumption -/
+/-- the Toeplitz leaves whose band array has a last axis (un-batched `[K]` or batched `bs ++ [K]`) need no assumption
+(the name dates from the time only un-batched bands were interpreted) -/
 theorem envSymOn_of_unbatched (E : Env) (o : Op)
     (h : AllLeaves (fun _ c p => c = .toeplitz → toepK p.vals ≠ none) o) : EnvSymOn E o :=
   allLeaves_mono _ _ (fun _ _ _ hp hc hn => absurd hn (hp hc)) o h
@@ -767,9 +773,10 @@ theorem polarizer_leaf_adjoint (E : Env) (u : Nat) (p : Params) (hok : stokesOK 
   rw [dot_fit_left _ _ _ (le_of_eq hy), dot_fit_right _ _ _ (le_of_eq hx)]
   exact key
 
-/-- **a Toeplitz leaf with an un-batched band is self-adjoint**: `⟨T x, y⟩ = ⟨x, T y⟩` on the vectors of the
-size of the structure — a THEOREM (the symmetry of the band matrix, `toepLeaf_adjoint`), for every band array,
-every number of bands and every input structure; no validity hypothesis is needed -/
+/-- **a Toeplitz leaf (band array `bs ++ [K]`, batched or not) is self-adjoint**: `⟨T x, y⟩ = ⟨x, T y⟩` on the
+vectors of the size of the structure — a THEOREM (the symmetry of the band matrix of every batch row,
+`toepLeaf_adjoint`), for every band array, every number of bands and every input structure; no validity hypothesis
+is needed (not even that the batch axes broadcast) -/
 theorem toeplitz_leaf_adjoint (E : Env) (u : Nat) (p : Params) (h : toepK p.vals ≠ none) :
     LeafAdjAt E u .toeplitz p := by
   intro x y hx hy
@@ -783,7 +790,7 @@ theorem toeplitz_leaf_adjoint (E : Env) (u : Nat) (p : Params) (h : toepK p.vals
 
 /-- **leaf adjointness**: for every leaf class but `BroadcastDiagonalOperator`, under the validity of the
 parameters (`listLeafOK`), `leafDenT` is the adjoint of `leafDen`; a THEOREM for the interpreted classes (Toeplitz
-leaves with an un-batched band included), the assumption `hE` (see `EnvAdjOn`) for the leaves interpreted by the
+leaves, batched band or not, included), the assumption `hE` (see `EnvAdjOn`) for the leaves interpreted by the
 environment (`isEnvLeaf`) -/
 theorem leaf_adjoint (E : Env) (u : Nat) (c : LeafCls) (p : Params)
     (hE : isEnvLeaf c p = true → LeafAdjAt E u c p) (hok : adjLeafOK c p) : LeafAdjAt E u c p := by
@@ -1410,7 +1417,7 @@ theorem transpose_is_adjoint_closed_on (E : Env) (o t : Op) (hE : EnvAdjOn E o) 
   exact den_adjoint_on E o hE hv.1 x y hx hy
 
 /-- **C03, closed, NO assumption on the environment**: for every valid expression whose leaves are all interpreted
-(no dense / observation-matrix / opaque leaf, Toeplitz leaves with un-batched bands only) `op.T` is the exact
+(no dense / observation-matrix / opaque leaf, no Toeplitz leaf with a rank-0 band array) `op.T` is the exact
 adjoint of `op`, whatever the environment -/
 theorem transpose_is_adjoint_closed_noEnv (E : Env) (o t : Op)
     (hI : AllLeaves (fun _ c p => isEnvLeaf c p = false) o) (hv : ValidT o) (hw : o.WFT)
@@ -1493,8 +1500,8 @@ theorem matEnv_adj (N : Nat) (W : Nat → Matrix (Fin N) (Fin N) ℝ) (u : Nat) 
     simp only [leafDen, leafDenT, matEnv, squareLeaf, Bool.false_eq_true, if_false]
     exact mat_adjoint N (W u) _ _ x y hx hy
 
-/-- a Toeplitz leaf interpreted by a symmetric matrix (batched band), or by the kernel (un-batched band), satisfies
-`LeafSymAt` -/
+/-- a Toeplitz leaf interpreted by a symmetric matrix (rank-0 band array), or by the kernel (band array `bs ++ [K]`),
+satisfies `LeafSymAt` -/
 theorem matEnv_sym (N : Nat) (W : Nat → Matrix (Fin N) (Fin N) ℝ) (u : Nat) (h : (W u)ᵀ = W u) (p : Params) :
     LeafSymAt (matEnv N W) u p := by
   by_cases hK : toepK p.vals = none
